@@ -46,8 +46,9 @@ Inductive case :=
 | CRw (calls : list rwcall) (ev_code ev_size : Z) (client_code client_size : Z)
 (* one request through the real HTTPProxy.ServeHTTP: the request as received, the route
    options, and what the Event handed to the logger says (RequestURL, Request.Host,
-   UpstreamAddr, UpstreamService, UpstreamURL) *)
-| CServe (r : inreq) (o : ropt) (obs : served)
+   UpstreamAddr, UpstreamService, UpstreamURL), RequestURL.String() (net/url, data) and the line the
+   real logger renders from that Event for [request_format] (every $request_* field) *)
+| CServe (r : inreq) (o : ropt) (obs : served) (urlstr : str) (line : outcome str)
 | CLog (format : str) (e : event) (impl : outcome str) (nwrites : N) (ref : option str).
 
 Definition atoi_domain (i pad : Z) : bool := int64_ok i && (pad <=? 127)%Z.
@@ -111,17 +112,19 @@ Definition check_case (c : case) : N :=
       let same := (fst m =? ev_code)%Z && (snd m =? ev_size)%Z in
       let spec := (ev_code =? client_code)%Z && (ev_size =? client_size)%Z in
       verdict same spec None (existsb (fun c => match c with RwHeader k => (k <? 200)%Z | _ => false end) calls)
-  | CServe r o obs =>
+  | CServe r o obs urlstr line =>
       let m := serve_event r o in
       let same := urlparts_eqb (sv_request_url obs) (sv_request_url m)
                   && beq (sv_request_host obs) (sv_request_host m)
                   && beq (sv_upstream_addr obs) (sv_upstream_addr m)
                   && beq (sv_upstream_service obs) (sv_upstream_service m)
-                  && urlparts_eqb (sv_upstream_url obs) (sv_upstream_url m) in
-      (* the request-side fields describe the request as received, whatever the route says *)
-      let spec := request_side_as_received r (sv_request_url obs) (sv_request_host obs) in
-      let region := if region_host_rewritten r o then Some 4 else None in
-      verdict same spec region (nonempty (ro_hostopt o) || nonempty (ir_xfp r) || nonempty (ir_fwd r))
+                  && urlparts_eqb (sv_upstream_url obs) (sv_upstream_url m)
+                  && out_eqb beq line (log_line request_format (event_of r m urlstr)) in
+      (* the RENDERED request-side fields describe the request as received, whatever the route
+         says and whatever was written into the live request meanwhile *)
+      let spec := urlparts_eqb (sv_request_url obs) (request_url_at r (st_received r))
+                  && out_eqb beq line (log_line request_format (received_event r urlstr)) in
+      verdict same spec None (nonempty (ro_hostopt o) || nonempty (ir_xfp r) || nonempty (ir_fwd r))
   | CLog format e impl nwrites ref =>
       let m := log_line format e in
       let same := out_eqb beq impl m && (nwrites =? (if is_ok m then 1 else 0)) in
